@@ -30,9 +30,19 @@ import (
 )
 
 type arrival struct {
-	IDs []int64 `json:"ids"`
-	OK  bool    `json:"ok"`
+	IDs    []int64 `json:"ids"`
+	Status int     `json:"status"`
+	OK     bool    `json:"ok"` // 2xx; only used for settling and descriptions, Coq computes status_ok itself
 }
+
+// final response statuses the fake Alertmanagers answer
+var okStatuses = []int{200, 202, 204, 299}
+var badStatuses = []int{300, 301, 304, 307, 399, 400, 404, 429, 500, 503}
+
+func is2xx(st int) bool { return st >= 200 && st < 300 }
+
+// okTerm is the Gallina term for "this status counts as delivered", computed by the model.
+func okTerm(st int) string { return fmt.Sprintf("(status_ok %d)", st) }
 
 type frame struct {
 	actor string // "Loop" | "Drainer"
@@ -71,6 +81,8 @@ type scriptEnv struct {
 	playHook                           []int    // fixed scripts: sizes of adds forced between nextBatch() and the encoding of the batch
 	hookAdds                           bool     // random adds in that window
 	nHookAdds                          int
+	forceStatus                        int // fixed scripts: status of every response
+	nBadStatus                         int
 }
 
 func mkAlert(id int64, drop bool) *notifier.Alert {
@@ -241,22 +253,30 @@ func (e *scriptEnv) do(_ context.Context, _ *http.Client, req *http.Request) (*h
 	var resp *http.Response
 	var rerr error
 	switch {
-	case mode < e.failPct/2:
+	case mode < e.failPct/6:
 		rerr = errors.New("verif: connection refused")
+	case mode < e.failPct/3:
+		rerr = context.DeadlineExceeded // request timed out before it reached the Alertmanager
 	default:
-		ok := mode >= e.failPct
+		st := okStatuses[e.r.Intn(len(okStatuses))]
+		if mode < e.failPct {
+			st = badStatuses[e.r.Intn(len(badStatuses))]
+		}
+		if e.forceStatus != 0 {
+			st = e.forceStatus
+		}
+		ok := is2xx(st)
 		if len(e.transit) > 0 && e.transit[0] != a {
 			e.overtook = true
 		}
 		e.untransit(a)
-		e.amLog = append(e.amLog, arrival{IDs: ids, OK: ok})
-		e.emit(fmt.Sprintf("Arrive %s %s", a, gallina.Bool(ok)), "A"+a[:1]+map[bool]string{true: "+", false: "-"}[ok], true)
+		e.amLog = append(e.amLog, arrival{IDs: ids, Status: st, OK: ok})
+		e.emit(fmt.Sprintf("Arrive %s %s", a, okTerm(st)), fmt.Sprintf("A%s%d", a[:1], st), true)
 		e.nested(true)
-		code := http.StatusOK
+		resp = &http.Response{StatusCode: st, Status: strconv.Itoa(st) + " " + http.StatusText(st), Body: io.NopCloser(bytes.NewReader(nil))}
 		if !ok {
-			code = http.StatusInternalServerError
+			e.nBadStatus++
 		}
-		resp = &http.Response{StatusCode: code, Status: strconv.Itoa(code), Body: io.NopCloser(bytes.NewReader(nil))}
 	}
 	e.depth--
 	fr.taken = false
@@ -408,7 +428,7 @@ func runScript(id int, seed uint64, idx int, fx *fixedScript, cf *gallina.CaseFi
 		}
 		e.drain = r.Bool()
 		e.overtake = e.drain && r.Chance(1, 6)
-		e.failPct = []int{0, 20, 50}[r.Intn(3)]
+		e.failPct = []int{0, 30, 60}[r.Intn(3)]
 		e.budget = 6 + r.Intn(20)
 		e.hookAdds = r.Chance(1, 2)
 	}
@@ -453,8 +473,8 @@ func runScript(id int, seed uint64, idx int, fx *fixedScript, cf *gallina.CaseFi
 	logS := make([]string, len(e.amLog))
 	var arrived []int64
 	for i, a := range e.amLog {
-		logT[i] = gallina.Pair(gallina.ListZ(a.IDs), gallina.Bool(a.OK))
-		logS[i] = fmt.Sprint(a.IDs, a.OK)
+		logT[i] = gallina.Pair(gallina.ListZ(a.IDs), okTerm(a.Status))
+		logS[i] = fmt.Sprint(a.IDs, a.Status)
 		arrived = append(arrived, a.IDs...)
 	}
 	class := "script-nodrain"
@@ -483,6 +503,9 @@ func runScript(id int, seed uint64, idx int, fx *fixedScript, cf *gallina.CaseFi
 	}
 	if e.nHookAdds > 0 {
 		meta.Hit("script-add-between-nextBatch-and-encoding")
+	}
+	if e.nBadStatus > 0 {
+		meta.Hit("script-non-2xx-final-response")
 	}
 	if e.nTake > 0 && (e.nOverflow > 0 || e.nNested > 0) {
 		meta.Nontrivial++
@@ -550,6 +573,28 @@ var fixedScripts = []fixedScript{
 		e.addN(2)
 		e.doLoopBatch()
 		e.doStop()
+	}},
+	// a final 3xx / 4xx response is a failed delivery: errors and dropped, never sent
+	{name: "304 on the normal send path", cap: 5, maxb: 2, play: func(e *scriptEnv) {
+		e.forceStatus = 304
+		e.addN(3)
+		e.doLoopBatch()
+		e.forceStatus = 299
+		e.doLoopBatch()
+	}},
+	{name: "301 without Location while draining", cap: 5, maxb: 2, drain: true, play: func(e *scriptEnv) {
+		e.forceStatus = 301
+		e.addN(4)
+		e.doStop()
+	}},
+	{name: "399 / 400 boundary", cap: 5, maxb: 1, play: func(e *scriptEnv) {
+		e.addN(3)
+		e.forceStatus = 399
+		e.doLoopBatch()
+		e.forceStatus = 400
+		e.doLoopBatch()
+		e.forceStatus = 300
+		e.doLoopBatch()
 	}},
 	// add() lands after nextBatch() returned and before the batch is encoded (outside the lock):
 	// the batch must be a copy, whether the queue fitted in one batch or not
